@@ -18,10 +18,17 @@ Variable p : prep.
 (* ---- guards (boolean; evaluated by the generator's mirror to classify cases, and by the examples) *)
 (* a character that may appear in a name whose delimited form the lazy groups read back *)
 Definition plainc (c : N) : bool := negb (c =? dq) && dotc c.
-(* constraint name v rendered as q by quote() *)
+(* a double quote inside a name is never followed by white space (else the doubled quote + space could be taken
+   for the end of the delimited name) *)
+Fixpoint dq_ok (v : str) : bool :=
+  match v with
+  | a :: ((b :: _) as r) => (if a =? dq then negb (is_space b) else true) && dq_ok r
+  | _ => true
+  end.
+(* constraint name v rendered as q by quote(): no newline; bare names consist of [\w$] *)
 Definition name_ok (v q : str) : bool :=
-  nonempty v && forallb plainc v &&
-  (if str_eqb q v then forallb (fun c => wordc uni c && negb (is_space c)) v else true).
+  nonempty v && forallb dotc v && dq_ok v &&
+  (if str_eqb q v then forallb (fun c => barec uni c && negb (is_space c)) v else true).
 (* column name v rendered as q inside UNIQUE (...) *)
 Definition col_ok (v q : str) : bool :=
   nonempty v && forallb (fun c => plainc c && negb (c =? rpar)) v &&
@@ -95,6 +102,46 @@ Proof.
     destruct acc as [|a acc']; [|rewrite Hq]; rewrite Hd; exact Hrec.
 Qed.
 
+(* one step of the lazy loop that cannot stop here *)
+Lemma lazy_quoted_step : forall R (K : str -> option R) acc c r,
+  dotc c = true -> (c =? dq) = false \/ K r = None ->
+  lazy_quoted K acc (c :: r) = lazy_quoted K (c :: acc) r.
+Proof.
+  intros R K acc c r Hd Hs. cbn [lazy_quoted]. rewrite Hd.
+  destruct acc as [|a acc]; [reflexivity|].
+  destruct Hs as [Hs|Hs]; [rewrite Hs; reflexivity|]. destruct (c =? dq); [rewrite Hs|]; reflexivity.
+Qed.
+
+(* the delimited form of ANY name without newline whose quotes are not followed by a space *)
+Lemma lazy_quoted_doubled : forall R (K : str -> option R) v acc r x,
+  (forall t, match t with c :: _ => is_space c = false | [] => True end -> K t = None) ->
+  forallb dotc v = true -> dq_ok v = true -> (acc <> [] \/ v <> []) -> K r = Some x ->
+  lazy_quoted K acc (double dq v ++ dq :: r) = Some (rev acc ++ double dq v, x).
+Proof.
+  intros R K v. induction v as [|a v IH]; intros acc r x HK Hd Hq Hne Hr.
+  - cbn [double flat_map app lazy_quoted]. destruct acc as [|c acc]; [destruct Hne; congruence|].
+    rewrite N.eqb_refl, Hr, app_nil_r. reflexivity.
+  - cbn [forallb] in Hd. apply andb_true_iff in Hd. destruct Hd as [Ha Hv].
+    assert (dq_ok v = true) as Hqv.
+    { destruct v as [|b v']; [reflexivity|]. cbn [dq_ok] in Hq. apply andb_true_iff in Hq. tauto. }
+    rewrite double_cons. destruct (a =? dq) eqn:Ea.
+    + apply N.eqb_eq in Ea. subst a. cbn [app].
+      (* first quote of the pair: what follows is the second quote *)
+      assert (K (dq :: double dq v ++ dq :: r) = None) as K1 by (apply HK; reflexivity).
+      (* second quote of the pair: what follows is the next character of the name, or the closing quote *)
+      assert (K (double dq v ++ dq :: r) = None) as K2.
+      { apply HK. destruct v as [|b v']; [reflexivity|]. rewrite double_cons.
+        cbn [dq_ok] in Hq. apply andb_true_iff in Hq. destruct Hq as [Hb _]. rewrite N.eqb_refl in Hb.
+        apply negb_true_iff in Hb. destruct (b =? dq); cbn [app]; [reflexivity|exact Hb]. }
+      rewrite (lazy_quoted_step _ K acc dq _ eq_refl (or_intror K1)).
+      rewrite (lazy_quoted_step _ K (dq :: acc) dq _ eq_refl (or_intror K2)).
+      rewrite (IH (dq :: dq :: acc) r x HK Hv Hqv) by (auto; left; discriminate).
+      cbn [rev]. rewrite <- !app_assoc. reflexivity.
+    + cbn [app]. rewrite (lazy_quoted_step _ K acc a _ Ha (or_introl Ea)).
+      rewrite (IH (a :: acc) r x HK Hv Hqv) by (auto; left; discriminate).
+      cbn [rev]. rewrite <- app_assoc. reflexivity.
+Qed.
+
 Lemma span_all : forall f v c t, forallb f v = true -> f c = false -> span f (v ++ c :: t) = (v, c :: t).
 Proof.
   intros f v. induction v as [|a v IH]; intros c t Hv Hc; cbn [app span].
@@ -111,16 +158,21 @@ Qed.
 (* ---- what quote() can return *)
 Hypothesis Hdq : prep_dq p = true.
 
-Lemma quote_cases : forall v q, quote p v = Ok q -> forallb plainc v = true ->
-  q = v \/ q = dq :: v ++ [dq].
+Lemma quote_cases : forall v q, quote p v = Ok q -> q = v \/ q = dq :: double dq v ++ [dq].
 Proof.
-  intros v q Hq Hp. pose proof Hdq as H. unfold prep_dq in H.
+  intros v q Hq. pose proof Hdq as H. unfold prep_dq in H.
   apply andb_true_iff in H. destruct H as [H H4]. apply andb_true_iff in H. destruct H as [H H3].
   apply andb_true_iff in H. destruct H as [H1 H2].
   apply N.eqb_eq in H1. apply N.eqb_eq in H2. apply N.eqb_eq in H3. apply negb_true_iff in H4.
   unfold quote, quote_force in Hq. destruct (requires_quotes p v) as [[|]|]; inversion Hq; subst; auto.
-  right. unfold quote_identifier, escape_identifier. rewrite H1, H2, H3, H4.
-  rewrite double_notin; [reflexivity|].
+  right. unfold quote_identifier, escape_identifier. rewrite H1, H2, H3, H4. reflexivity.
+Qed.
+
+Lemma quote_cases_plain : forall v q, quote p v = Ok q -> forallb plainc v = true ->
+  q = v \/ q = dq :: v ++ [dq].
+Proof.
+  intros v q Hq Hp. destruct (quote_cases v q Hq) as [H|H]; [left; exact H|right].
+  rewrite H, double_notin; [reflexivity|].
   intros Hin. apply forallb_forall with (x := dq) in Hp; [|assumption]. unfold plainc in Hp. rewrite N.eqb_refl in Hp. discriminate.
 Qed.
 
@@ -145,31 +197,36 @@ Lemma named_rendered : forall R (tail : str -> option R) v q X x,
 Proof.
   intros R tail v q X x Hq Hok HX HXne Ht.
   unfold name_ok in Hok. apply andb_true_iff in Hok. destruct Hok as [Hok Hbare].
-  apply andb_true_iff in Hok. destruct Hok as [Hne Hp].
+  apply andb_true_iff in Hok. destruct Hok as [Hok Hdqok]. apply andb_true_iff in Hok. destruct Hok as [Hne Hp].
   destruct v as [|v0 v']; [discriminate|].
   assert (drop_spaces X = X) as HdX.
   { destruct X as [|c X']; [congruence|]. apply drop_spaces_head. eapply HX. reflexivity. }
-  assert ((match spaces1 (sp :: X) with Some r' => tail r' | None => None end) = Some x) as HK.
-  { rewrite spaces1_sp, HdX. exact Ht. }
+  pose (K := fun r : str => match spaces1 r with Some r' => tail r' | None => None end).
+  assert ((match spaces1 (sp :: X) with Some r' => tail r' | None => None end) = Some x) as HK
+    by (rewrite spaces1_sp, HdX; exact Ht).
+  assert (forall t, match t with c :: _ => is_space c = false | [] => True end -> K t = None) as HKn.
+  { intros [|c t] Hc; unfold K, spaces1; [reflexivity|]. rewrite Hc. reflexivity. }
   unfold named, lit_constraint. rewrite <- app_assoc, ci_prefix_self. cbn [app]. rewrite spaces1_sp.
-  destruct (quote_cases (v0 :: v') q Hq Hp) as [-> | ->].
+  destruct (quote_cases (v0 :: v') q Hq) as [-> | ->].
   - (* bare *)
     rewrite str_eqb_refl in Hbare.
     assert (is_space v0 = false /\ (v0 =? dq) = false) as [Hs0 Hq0].
-    { cbn [forallb] in Hbare, Hp. apply andb_true_iff in Hbare. destruct Hbare as [H0 _].
-      apply andb_true_iff in H0. destruct H0 as [_ H0]. apply negb_true_iff in H0.
-      apply andb_true_iff in Hp. destruct Hp as [H1 _]. unfold plainc in H1. apply andb_true_iff in H1.
-      destruct H1 as [H1 _]. apply negb_true_iff in H1. split; assumption. }
+    { cbn [forallb] in Hbare. apply andb_true_iff in Hbare. destruct Hbare as [H0 _].
+      apply andb_true_iff in H0. destruct H0 as [Hb H0]. apply negb_true_iff in H0. split; [assumption|].
+      destruct (v0 =? dq) eqn:E; [|reflexivity]. apply N.eqb_eq in E. subst v0.
+      unfold barec, wordc in Hb. cbn in Hb. discriminate. }
     cbn [app]. rewrite drop_spaces_head by assumption. rewrite Hq0.
-    assert (forallb (wordc uni) (v0 :: v') = true) as Hw.
+    assert (forallb (barec uni) (v0 :: v') = true) as Hw.
     { apply forallb_forall. intros c Hc. apply forallb_forall with (x := c) in Hbare; [|assumption].
       apply andb_true_iff in Hbare. tauto. }
     change (v0 :: v' ++ sp :: X) with ((v0 :: v') ++ sp :: X).
-    rewrite (span_all (wordc uni) (v0 :: v') sp X Hw) by reflexivity.
+    rewrite (span_all (barec uni) (v0 :: v') sp X Hw) by reflexivity.
     rewrite HK. reflexivity.
-  - (* delimited *)
+  - (* delimited: the doubled quotes are collapsed again *)
     cbn [app]. rewrite drop_spaces_head by reflexivity. rewrite N.eqb_refl.
     rewrite <- app_assoc. cbn [app].
-    rewrite (lazy_quoted_plain _ _ (v0 :: v') [] (sp :: X) x Hp); [reflexivity| right; discriminate | exact HK].
+    change (fun r : str => match spaces1 r with Some r' => tail r' | None => None end) with K.
+    rewrite (lazy_quoted_doubled _ K (v0 :: v') [] (sp :: X) x HKn Hp Hdqok); [|right; discriminate|exact HK].
+    cbn [rev app]. rewrite undouble_double. reflexivity.
 Qed.
 End P.
